@@ -6,7 +6,7 @@ set -u
 ID=$1; SRC=$2; NAME=${3:-$1}
 export GOFLAGS=-mod=mod GOPROXY=off GOSUMDB=off GOTOOLCHAIN=local
 OUT=/verif/seeded/$NAME; mkdir -p $OUT
-cd $SRC || exit 2
+cd $SRC || exit 2; git diff -- . ":(exclude)*zz_seed_demo*" > /dev/null
 git diff -- . ':(exclude)*zz_seed_demo*' > $OUT/patch.diff
 DEMOS=$(git ls-files --others --exclude-standard | grep -E '_test\.go$|demo' | grep -v SEED_REPORT)
 mkdir -p $OUT/demo
